@@ -636,6 +636,30 @@ class SeqRunner:
         return self.ops[key]
 
 
+def smooth_op_term(ift, rng, step, sigma):
+    """check_smooth_op term: HarmonicSmoothingOperator built with [sigma] on the step's domain; ValueError from the
+    constructor is reported to the model as None (any other exception propagates)."""
+    B, N, A = geom(step)
+    x = dyadic_vec(rng, B * N * A, False)
+    with Conv(step["conv"]):
+        doms = [mk_sub(s) for s in step["before"]]
+        space = len(doms)
+        doms.append(ift.RGSpace(tuple(step["shape"]), distances=tuple(step["dist"])))
+        doms += [mk_sub(s) for s in step["after"]]
+        try:
+            op = ift.HarmonicSmoothingOperator(tuple(doms), sigma, space=space)
+        except ValueError:
+            op = None
+        if op is not None:
+            dom = ift.DomainTuple.make(tuple(doms))
+            y = op(ift.Field.from_raw(dom, x.reshape(dom.shape))).asnumpy().reshape(-1)
+    ker = gauss_kernel(step["shape"], step["dist"], sigma)
+    q = lambda v: C.clist([C.cq(float(t)) for t in v])
+    return "check_smooth_op %s %s %s %d%%nat %s %s %d%%nat %s %s %s" % (
+        TOLP, C.cq(float(sigma)), C.cbool(step["conv"] == CONVS[0]), B, cnats(step["shape"]), q(step["dist"]), A,
+        q(ker), q(x), "None" if op is None else "(Some %s)" % q(y))
+
+
 def sequence_terms(ctx):
     """Coq terms for the sequences: each step against the model on the step's own arguments."""
     ift = quiet()
@@ -647,21 +671,7 @@ def sequence_terms(ctx):
             m = {"kind": "sequence", "seq": si, "step": ti, "what": step["kind"]}
             try:
                 if step["kind"] == "smoothing" and all(n in (1, 2, 4) for n in step["shape"]):
-                    B, N, A = geom(step)
-                    with Conv(step["conv"]):
-                        doms = [mk_sub(s) for s in step["before"]]
-                        space = len(doms)
-                        doms.append(ift.RGSpace(tuple(step["shape"]), distances=tuple(step["dist"])))
-                        doms += [mk_sub(s) for s in step["after"]]
-                        op = ift.HarmonicSmoothingOperator(tuple(doms), step["sigma"], space=space)
-                        dom = ift.DomainTuple.make(tuple(doms))
-                        x = dyadic_vec(rng, B * N * A, False)
-                        y = op(ift.Field.from_raw(dom, x.reshape(dom.shape))).asnumpy().reshape(-1)
-                    ker = gauss_kernel(step["shape"], step["dist"], step["sigma"])
-                    q = lambda v: C.clist([C.cq(float(t)) for t in v])
-                    terms.append("check_smooth %s %s %d%%nat %s %s %d%%nat %s %s %s" % (
-                        TOLP, C.cbool(step["conv"] == CONVS[0]), B, cnats(step["shape"]), q(step["dist"]), A,
-                        q(ker), q(x), q(y)))
+                    terms.append(smooth_op_term(ift, rng, step, step["sigma"]))
                     meta.append(m)
                 elif step["kind"] == "op_reuse":
                     op = run.op_reuse(step)
@@ -674,6 +684,19 @@ def sequence_terms(ctx):
             except Exception as e:
                 terms.append("false")
                 meta.append(dict(m, error=repr(e)[:200]))
+        # the factory's sigma branches (ModelSeq.smooth_op): sigma < 0 must raise ValueError, sigma == 0 (also -0.0,
+        # int 0) must be the identity EXACTLY; appended after the sequence so the sequence itself is unchanged
+        step0 = seq[0]
+        if step0["kind"] == "smoothing" and all(n in (1, 2, 4) for n in step0["shape"]):
+            for xi, sg in enumerate([-0.5, 0.0, -0.0, 0, -1e-300]):
+                for st in (step0, seq[-1]):
+                    m = {"kind": "sequence", "seq": si, "step": len(seq) + xi, "what": "smoothing_sigma_branch", "sigma": repr(sg)}
+                    try:
+                        terms.append(smooth_op_term(ift, rng, st, sg))
+                        meta.append(m)
+                    except Exception as e:
+                        terms.append("false")
+                        meta.append(dict(m, error=repr(e)[:200]))
     return terms, meta
 
 
